@@ -249,6 +249,8 @@ func main() {
 		cmdSoups(os.Args[2:])
 	case "scale-sem":
 		cmdScaleSem(os.Args[2:])
+	case "sem-file":
+		cmdSemFile(os.Args[2:])
 	case "conc":
 		cmdConc(os.Args[2:])
 	case "store-replay":
